@@ -262,6 +262,8 @@ pub struct RunOut {
     pub ctags: Vec<Vec<(usize, u64, u64)>>,
     pub eof_flag: bool,
     pub panicked: bool,
+    /// the adaptive flush ran out of iterations: the block never settled
+    pub exhausted: bool,
 }
 
 /// Run the schedule on the real block; returns the observed trace (same format as the model's).
@@ -333,6 +335,14 @@ pub fn run_case_full(mut rig: Rig, ins: &[InSpec], acts: &[Act], adaptive_flush:
             flush_prev = Some(snapshot);
             if all_closed && !last.starts_with('A') && !last.is_empty() && !last_moved && quiet_round {
                 break;
+            }
+            if !all_closed && quiet_round && !last_moved && !last.is_empty() {
+                // stalled with inputs still open (e.g. one input of a two-input block ran dry): end the inputs
+                for j in 0..rig.ins.len() {
+                    if !closed[j] {
+                        acts.push(Act::Close(j));
+                    }
+                }
             }
             for j in 0..rig.ins.len() {
                 if !closed[j] {
@@ -497,6 +507,7 @@ pub fn run_case_full(mut rig: Rig, ins: &[InSpec], acts: &[Act], adaptive_flush:
         ctags,
         eof_flag,
         panicked,
+        exhausted: adaptive_flush && flush_left == 0,
     }
 }
 
